@@ -165,6 +165,24 @@ func (it *Interp) Step(t []string, op string) string {
 		}
 	case "count":
 		return fmt.Sprint(it.la.Count(ev(t[1])))
+	case "aminrt":
+		return fmt.Sprint(it.la.MinRt())
+	case "amaxconc":
+		return fmt.Sprint(it.la.MaxConcurrency())
+	case "values":
+		// BucketLeapArray.Values(now): canonical form = sorted by start, untouched buckets dropped
+		ws := it.la.Values(it.clk.CurrentTimeMillis())
+		sort.Slice(ws, func(i, j int) bool { return ws[i].BucketStart < ws[j].BucketStart })
+		var xs []string
+		for _, w := range ws {
+			b := w.Value.Load().(*sbase.MetricBucket)
+			p, bl, c, e, rt := b.Get(base.MetricEventPass), b.Get(base.MetricEventBlock), b.Get(base.MetricEventComplete), b.Get(base.MetricEventError), b.Get(base.MetricEventRt)
+			if p == 0 && bl == 0 && c == 0 && e == 0 && rt == 0 && b.MinRt() == base.DefaultStatisticMaxRt && b.MaxConcurrency() == 0 {
+				continue
+			}
+			xs = append(xs, fmt.Sprintf("%d:%d:%d:%d:%d:%d:%d:%d", w.BucketStart, p, bl, c, e, rt, b.MinRt(), b.MaxConcurrency()))
+		}
+		return "[" + strings.Join(xs, ",") + "]"
 	case "items":
 		lo, hi := vh.U(t[1]), vh.U(t[2])
 		// any view serves: SecondMetricsOnCondition only uses the underlying array
